@@ -478,6 +478,11 @@ pub struct Wrapped {
     pub case: Case,
     #[serde(default)]
     pub probe_known: bool,
+    /// instead of `case`: a timer program of C05's generator (tasks awaiting sleeps, timeouts, intervals and selects
+    /// with cancelled and re-armed timers); "the awaited condition became true" is then the deadline, and the code
+    /// after the await must log exactly that instant
+    #[serde(default)]
+    pub timers: Option<crate::c05::Case>,
 }
 
 impl Prop for C06 {
@@ -488,7 +493,7 @@ impl Prop for C06 {
         "proptest: a module whose tasks are parked on Notify / mpsc / oneshot / Semaphore (fan-out of n tasks), on a oneshot chain or a JoinHandle \
          chain of depth d, on a bulk receive of k items in one task, or are spawned as a burst by the trigger, or all sleep until the same instant; n, d, k in 1..300 (quick) / 1..5000 \
          (thorough) with 59..64 and 120..130 over-sampled; 0..3 yield_now() calls inside each task; trigger = handle_message, a consuming processing element (the handler is skipped) or a timer-woken task \
-         at T, which in 30% of the cases also requests the module's shutdown (with or without restart) in that very event; an unrelated later event at T2 > T; tokio::spawn or (from synchronous callbacks only) spawn_local. Oracle: every task's log entry \
+         at T, which in 30% of the cases also requests the module's shutdown (with or without restart) in that very event; an unrelated later event at T2 > T; tokio::spawn or (from synchronous callbacks only) spawn_local. One case in six is a timer program of C05's generator instead (sleeps, timeouts, intervals, selects with cancelled and re-armed timers; the code after each await must log exactly the deadline). Oracle: every task's log entry \
          after its await carries exactly T, exactly one per task, run() is Ok (all joined), the later event is handled once. Non-trivial iff \
          more than 61 tasks/links are involved or a task yields. Excluded (known finding): spawn_local tasks with more than 61 runnable at once, a yield, a bulk receive > 128, or a \
          release performed by a runtime task."
@@ -516,7 +521,7 @@ impl Prop for C06 {
             2 => n.clone().prop_map(Mode::SpawnBurst),
             2 => n.prop_map(Mode::Sleepers),
         ];
-        (
+        let base = (
             mode,
             prop_oneof![2 => Just(0u8), 1 => 1u8..4],
             any::<bool>(),
@@ -538,10 +543,37 @@ impl Prop for C06 {
                     shutdown,
                 },
                 probe_known: false,
-            })
-            .boxed()
+                timers: None,
+            });
+        let base = base.boxed();
+        // one case in six is a timer program
+        let timers = <crate::c05::C05 as Prop>::strategy(tier).prop_map(|t| Wrapped {
+            case: Case {
+                mode: Mode::Sleepers(1),
+                yields: 0,
+                timer_trigger: false,
+                local: false,
+                t_ms: 0,
+                gap_ms: 1,
+                via_element: false,
+                shutdown: None,
+            },
+            probe_known: false,
+            timers: Some(t),
+        });
+        prop_oneof![5 => base, 1 => timers].boxed()
     }
     fn run(w: &Wrapped) -> Outcome {
+        if let Some(t) = &w.timers {
+            return match crate::c05::run_case(t) {
+                Ok((_, _)) => Outcome::ok(true, vec!["timer-program"]),
+                // a task that resumes after its deadline (or never) is this property's failure as well
+                Err(f) => Outcome::failed(Failure::new(
+                    if f.sig.starts_with("timer-") { "work-finished-after-its-instant" } else { f.sig.as_str() },
+                    format!("timer program (oracle of C05, {}): {}", f.sig, f.msg),
+                )),
+            };
+        }
         match run_case(&w.case, w.probe_known) {
             Ok((nt, labels, excluded)) => {
                 let mut o = Outcome::ok(nt, labels);
@@ -566,6 +598,7 @@ impl Prop for C06 {
                     shutdown: None,
                 },
                 probe_known: true,
+                timers: None,
             },
         )]
     }
